@@ -544,8 +544,8 @@ theorem c09_identity_auto_length_partial (g : Cfg) (hg : g.failAt = 0) (hdr : He
 (an HTTP/1.0 request), no Flush, body-phase header operations on declared trailers only, the real head encoder:
 the reference parser reads the wire as the handler's status line, a field list that contains
 `Content-Length: <decimal length of the body>` (`0` for an empty body), and EXACTLY the concatenation of the
-accepted writes as the body.  (With a Flush before the last write this fails: finding
-`resp-flush-identity-nocl`, `c09_flush_identity_counterexample`.) -/
+accepted writes as the body.  (With a Flush the head announces no length and the connection is closed:
+`c09_flush_close_delimited`.) -/
 theorem c09_identity_auto_length (g : Cfg) (hg : g.failAt = 0) (hreal : g.head = headBytes g)
     (hdr : Header) (sc : Nat) (st : Bytes) (ops : List BOp) (hok : ∀ op ∈ ops, op.ok) (hnf : ∀ op ∈ ops, op ≠ .flush)
     (htr : ∀ op ∈ ops, op.trailerOnly (body0 g hdr sc st).header)
